@@ -1,7 +1,8 @@
 """Runs the translators a property depends on (all of them when prop is None); each writes coq/gen/*.v
 only when its content changed."""
 import importlib
-DEPS = {}
+SVC = ['harness_backend']
+DEPS = {p: SVC for p in ['C01','C02','C03','C04','C05','C06','C07','C08','C09','C10','C11','C12','C13','C14','C15','C16','C17','C18','C19','C20']}
 def regen(prop):
     names = sorted({t for p, ts in DEPS.items() if prop is None or p == prop for t in ts})
     for n in names:
